@@ -327,6 +327,9 @@ class DigestCredentialFactory:
         # Verify the key
         try:
             key = base64.b64decode(opaqueParts[1], validate=True)
+            if base64.b64encode(key) != opaqueParts[1]:
+                # Not the spelling this factory issued.
+                raise ValueError()
         except ValueError:
             raise error.LoginFailed("Invalid response, invalid opaque value")
         keyParts = key.split(b",")
